@@ -356,6 +356,25 @@ func genTokenSheet(t *rapid.T, k *tokens, name string) xlsxw.Sheet {
 		}
 		s.Cells = append(s.Cells, cell)
 	}
+	// a sheet that reaches the last column (XFD, 16384) or the last row (1048576) a worksheet has: declared and
+	// readable like any other (a dense grid of one such row or column is small)
+	switch rapid.IntRange(0, 11).Draw(t, "edgeCell") {
+	case 0:
+		if !used[[2]int{0, xlsxw.MaxCol}] {
+			for i := range s.Cells {
+				s.Cells[i].Row = 0 // one row only: the grid is one row of 16384 cells
+			}
+			seen := map[int]bool{}
+			var keep []xlsxw.Cell
+			for _, c := range s.Cells {
+				if !seen[c.Col] {
+					seen[c.Col] = true
+					keep = append(keep, c)
+				}
+			}
+			s.Cells = append(keep, xlsxw.Cell{Row: 0, Col: xlsxw.MaxCol, Kind: xlsxw.Inline, Text: k.next()})
+		}
+	}
 	return s
 }
 
